@@ -81,6 +81,18 @@ def run(facts, rep, tier, ctx):
     wa_ = World(facts, True)
     if wa_.present():
         c04.session_start_rules(facts, rep, wa_, D, "R14.6/R14.5s")
+    # ... of the bytes the file has: opening an append handle copies them and leaves the stored entry alone (a handle that
+    # takes the bytes out leaves an empty file behind for every other handle opened meanwhile)
+    from . import c01 as _c01
+    from ..report import Report as _Rp
+    for w5 in (ws, wa_):
+        if not w5.present():
+            continue
+        scr5 = _Rp("a")
+        _c01.table_m(facts, scr5, "M", "Mk", self_ty=w5.memory, trait=w5.trait.rsplit("::", 1)[1], ops_filter=("append_file",))
+        for o in scr5.obligations:
+            if "the stored entry is not modified" in o["key"]:
+                rep.ob(("R14.6/" if w5.asyncw else "") + "R14.5a", o["fn"], o["key"].split("|")[2], o["ok"], o["detail"], o["loc"])
     # through the overlay an append handle starts after the bytes the overlay showed: the copy-up is a complete byte copy
     # (copy_file of the resolved file) made before the upper layer's append handle is opened
     from . import c09
